@@ -51,6 +51,9 @@ CHECKS = {
  "C14": ("small-scope enumeration (E1): every set of <=2 intervals on a 7-point timeline x the four operators x all bound pairs x every evaluation time; variable and head annotations, chains; every ordered interval pair x 9 relations; real engine compared with own interval arithmetic",
          "bounded-exhaustive: every (fact set, program, evaluation time) in scope is evaluated on the real engine against a coalesced TemporalStore and the derived facts / stored intervals compared exactly with the pointwise meaning",
          "windows written with the larger offset first are undocumented and not judged; stored intervals for annotation enumeration are read from the coalesced store (subject of C13)", "4 C14"),
+ "C11": ("small-scope program enumeration (E1): every pair of bound declarations over a type alphabet x 25 rule shapes x fact sets admitted by the declaration, through AnalyzeAndCheckBounds(ErrorForBoundsMismatch) and evaluation; every stored fact re-checked with the library's run-time type check",
+         "bounded-exhaustive: every (declarations, rule, facts) combination in scope that analysis accepts is evaluated and every fact of the declared predicates must pass builtin.TypeChecker.CheckTypeBounds",
+         "membership is the library's own HasType; violations explained by the recorded map-key-variance / struct-width inconsistencies (C12) or by uninstantiated type variables of :match_pair/:match_cons are known findings", "4 C11"),
 }
 NOT_APPLICABLE = {
 }
